@@ -35,6 +35,11 @@ class CallGraph:
             for key in ("fn", "closure", "uneval"):
                 v = k.get(key)
                 if v:
+                    if key == "uneval" and "promoted" in k:
+                        pid = "%s::{promoted#%d}" % (v, k["promoted"])
+                        if pid in self.facts.bodies:
+                            out.add(pid)
+                        continue
                     bid = self._body_id(v)
                     if bid:
                         out.add(bid)
